@@ -148,7 +148,8 @@ def decorate(behs, rng):
         b["_nmw"] = rng.choice([0, 1, 2])
         # gamma variant: CollectFields-equivalent document shapes and resolver attachment styles
         b["_variant"] = {"wrap": rng.choice(["none", "none", "inline", "inline-untyped", "spread", "split"]),
-                         "dup": rng.random() < 0.25, "style": rng.choice(["resolver", "resolver", "method"])}
+                         "dup": rng.random() < 0.25, "style": rng.choice(["resolver", "resolver", "method"]),
+                         "err": rng.choice(["fresh", "shared"])}
     return behs
 
 
